@@ -15,4 +15,4 @@ Extraction "model.ml" Label.parse_label Label.print_label Label.parse_patterns_o
   Select.select_visited_cost Select.ancestors_visited_cost Select.descendants_visited_cost
   Select.edges
   Select.deps_query Select.rdeps_query Select.deps_query_dedup Select.rdeps_query_dedup
-  Select.owners Select.list_query.
+  Select.owners Select.owners_verbatim Select.list_query.
